@@ -288,7 +288,7 @@ class ModelBase(object):
                 )
             if pdf_gas == 'rosin-rammler':
                 # Convert lognormal parameters to Rosin-Rammler
-                self.d50_gas, self.k_gas, self.sigma_gas = psf.ln2rr(
+                self.d50_gas, self.k_gas, self.alpha_gas = psf.ln2rr(
                         self.d50_gas, self.sigma_ln_gas
                     )
         elif model_gas == 'li_etal':
